@@ -74,6 +74,42 @@ func (e *env) gated(ctx context.Context, who, key, ev string, fn func(fail bool)
 	return err
 }
 
+// gatedFree is gated for calls into the code under test that may themselves wait for another goroutine of the node (a lock
+// inside the detector): call runs without the chain mutex, so whoever it waits for can still pass its own gates; record
+// then renders the result under the mutex.
+func (e *env) gatedFree(ctx context.Context, who, key, ev string, call func() error, record func(err error) tr.M) error {
+	if ctx.Err() != nil {
+		return ctx.Err()
+	}
+	w := &waiter{who: who, key: key, ctx: ctx, rel: make(chan bool, 1), done: make(chan struct{})}
+	e.mu.Lock()
+	e.ws = append(e.ws, w)
+	e.mu.Unlock()
+	e.signal()
+	var fail bool
+	select {
+	case fail = <-w.rel:
+	case <-ctx.Done():
+		e.remove(w)
+		e.signal()
+		return ctx.Err()
+	}
+	defer func() {
+		close(w.done)
+		e.signal()
+	}()
+	if ctx.Err() != nil {
+		return ctx.Err()
+	}
+	err := call()
+	e.c.mu.Lock()
+	defer e.c.mu.Unlock()
+	info := record(err)
+	info["ev"], info["who"], info["key"], info["fail"] = ev, who, key, fail
+	e.c.emit(info)
+	return err
+}
+
 func (e *env) gatedRPC(ctx context.Context, who, key string, fn func(fail bool) (tr.M, error)) error {
 	return e.gated(ctx, who, key, "rpc", fn)
 }
